@@ -117,7 +117,8 @@ def fmtRecs (rs : List Rec) : String :=
       let ps := match r.st.pos with | none => "nil" | some p => fmtPos p
       let shown := if ps == prev && ps != "nil" then "=" else ps
       let mm := if r.st.mm.isSome then "1" else "0"
-      (" || " ++ "~".intercalate (r.out.map canonInfo) ++ s!" # {mm} {r.st.size} {shown}") :: go ps rs
+      let dl := match r.deadline with | none => "-" | some d => toString d
+      (" || " ++ "~".intercalate (r.out.map canonInfo) ++ s!" # {mm} {r.st.size} dl={dl} {shown}") :: go ps rs
   String.join (go "" rs)
 
 def charsOfBytes (bs : List Nat) : List Char := bs.map Char.ofNat
@@ -137,8 +138,8 @@ def handleTEI : Handler := fun st op args =>
   | "teiclass", _depth :: hex :: ents =>
     match unhex hex, parseTable ents with
     | some bytes, some t =>
-      let (_, x) := run (mkEnv st.basis t false) (tokenize (charsOfBytes bytes))
-      some (st, fmtExit x)
+      let (recs, x) := run (mkEnv st.basis t false) (tokenize (charsOfBytes bytes))
+      some (st, fmtExit x ++ String.join (recs.map fun r => " " ++ (match r.deadline with | none => "-" | some d => toString d)))
     | _, _ => some (st, "bad-op")
   | _, _ => none
 
